@@ -6,7 +6,7 @@ Import ListNotations.
 
 (* r1 is r2 with possibly fewer nested details; l1 is a sub-list of l2 in that sense *)
 Inductive le_res : vresult -> vresult -> Prop :=
-| le_vr f v c s sev d1 d2 : le_list d1 d2 -> le_res (VR f v c s sev d1) (VR f v c s sev d2)
+| le_vr f v p c s sev d1 d2 : le_list d1 d2 -> le_res (VR f v p c s sev d1) (VR f v p c s sev d2)
 with le_list : list vresult -> list vresult -> Prop :=
 | le_nil l : le_list [] l
 | le_cons a b l1 l2 : le_res a b -> le_list l1 l2 -> le_list (a :: l1) (b :: l2)
@@ -14,8 +14,8 @@ with le_list : list vresult -> list vresult -> Prop :=
 
 Fixpoint le_res_refl (r:vresult) : le_res r r :=
   match r with
-  | VR f v c s sev d =>
-    le_vr f v c s sev d d
+  | VR f v p c s sev d =>
+    le_vr f v p c s sev d d
       ((fix go (l:list vresult) : le_list l l :=
           match l with [] => le_nil [] | a :: l' => le_cons a a l' l' (le_res_refl a) (go l') end) d)
   end.
@@ -45,6 +45,7 @@ Proof. inversion 1; reflexivity. Qed.
 
 Section WithTrig.
 Variable trig : trig_t.
+Variable W : world.
 Variable o : eopts.   (* the complete run: e_abort o = false; the aborted run uses oa *)
 Definition oa : eopts := {| e_abort := true; e_allowed := e_allowed o; e_max_depth := e_max_depth o |}.
 
@@ -139,7 +140,7 @@ Definition fst_agree (n1 n2:nested_t) : Prop :=
 Lemma evalc_conformance_only n1 n2 g E s fvs ep c cr :
   fst_agree n1 n2 ->
   match c with CNode _ | CProperty _ => False | _ => True end ->
-  evalc trig n2 g E s fvs ep c = Ok cr -> evalc trig n1 g E s fvs ep c = Ok cr.
+  evalc trig W n2 g E s fvs ep c = Ok cr -> evalc trig W n1 g E s fvs ep c = Ok cr.
 Proof.
   intros Hn Hc. destruct c; try destruct Hc; cbn [evalc].
   - auto.
@@ -182,6 +183,7 @@ Proof.
     apply bind_ok in Hb as (scrs2 & Em & Hb).
     destruct (mapM_fst (fun sib => n1 sib v ep) _ _ _ (fun x => Hn x v ep) Em) as (scrs1 & Em1 & Hfs).
     rewrite Em1. simpl. rewrite existsb_fst, Hfs, <- existsb_fst. exact Hb.
+  - auto.
 Qed.
 
 (* ---------------- element-wise transfer of relations through the plumbing ---------------- *)
@@ -257,12 +259,12 @@ Proof. intros H s v ep c2 r2 E. destruct (H s v ep c2 r2 E) as (r1 & E1 & _). ea
 
 Lemma evalc_AR n1 n2 g E s fvs ep c cr2 :
   AR n1 n2 -> nested_good n1 -> nested_good n2 ->
-  evalc trig n2 g E s fvs ep c = Ok cr2 ->
-  exists r1, evalc trig n1 g E s fvs ep c = Ok (fst cr2, r1) /\ rel r1 (snd cr2).
+  evalc trig W n2 g E s fvs ep c = Ok cr2 ->
+  exists r1, evalc trig W n1 g E s fvs ep c = Ok (fst cr2, r1) /\ rel r1 (snd cr2).
 Proof.
   intros Hn Hg1 Hg2 H.
   assert (Hco : match c with CNode _ | CProperty _ => False | _ => True end ->
-                exists r1, evalc trig n1 g E s fvs ep c = Ok (fst cr2, r1) /\ rel r1 (snd cr2)).
+                exists r1, evalc trig W n1 g E s fvs ep c = Ok (fst cr2, r1) /\ rel r1 (snd cr2)).
   { intros Hc. exists (snd cr2). split; [|apply rel_refl].
     rewrite (evalc_conformance_only n1 n2 g E s fvs ep c cr2 (AR_fst _ _ Hn) Hc H). destruct cr2; reflexivity. }
   destruct c; try (apply Hco; exact I); clear Hco; cbn [evalc] in *.
@@ -396,8 +398,8 @@ Proof.
 Qed.
 
 Theorem vshape_AR g E : forall fuel top ep s foci c2 r2,
-  vshape trig fuel o g E top ep s foci = Ok (c2, r2) ->
-  exists r1, vshape trig fuel oa g E top ep s foci = Ok (c2, r1) /\ rel r1 r2.
+  vshape trig W fuel o g E top ep s foci = Ok (c2, r2) ->
+  exists r1, vshape trig W fuel oa g E top ep s foci = Ok (c2, r1) /\ rel r1 r2.
 Proof.
   induction fuel as [|fuel IH]; intros top ep s foci c2 r2; cbn [vshape];
     change (e_max_depth oa) with (e_max_depth o);
@@ -418,6 +420,7 @@ End WithTrig.
 (* ---------------- the validator loop ---------------- *)
 Section Validate.
 Variable trig : trig_t.
+Variable W : world.
 Variable o : opts.               (* the complete run *)
 Hypothesis Hfull : abort o = false.
 Definition with_abort : opts :=
@@ -430,12 +433,12 @@ Lemma eopts_with_abort : eopts_of with_abort = oa eo.
 Proof. reflexivity. Qed.
 
 Lemma validate_top_AR sg g E s explicit c2 r2 :
-  validate_top trig o sg g E s explicit = Ok (c2, r2) ->
-  exists r1, validate_top trig with_abort sg g E s explicit = Ok (c2, r1) /\ relo r1 r2.
+  validate_top trig W o sg g E s explicit = Ok (c2, r2) ->
+  exists r1, validate_top trig W with_abort sg g E s explicit = Ok (c2, r1) /\ relo r1 r2.
 Proof.
-  assert (Hv : forall foci, vshape trig (fuel_of eo) eo g E true [] s foci = Ok (c2, r2) ->
-     exists r1, vshape trig (fuel_of (eopts_of with_abort)) (eopts_of with_abort) g E true [] s foci = Ok (c2, r1) /\ relo r1 r2).
-  { intros foci H. rewrite eopts_with_abort. apply (vshape_AR trig eo Hfull); exact H. }
+  assert (Hv : forall foci, vshape trig W (fuel_of eo) eo g E true [] s foci = Ok (c2, r2) ->
+     exists r1, vshape trig W (fuel_of (eopts_of with_abort)) (eopts_of with_abort) g E true [] s foci = Ok (c2, r1) /\ relo r1 r2).
+  { intros foci H. rewrite eopts_with_abort. apply (vshape_AR trig W eo Hfull); exact H. }
   assert (Ht : @Ok cres (true, @nil vresult) = Ok (c2, r2) -> exists r1, @Ok cres (true, @nil vresult) = Ok (c2, r1) /\ relo r1 r2).
   { intros [= <- <-]. exists []. split; [reflexivity|apply rel_refl]. }
   unfold validate_top. change (focus_filter with_abort) with (focus_filter o).
@@ -445,7 +448,7 @@ Proof.
 Qed.
 
 Lemma run_shapes_extends oo sg g E explicit : forall shapes nc acc c r,
-  run_shapes trig oo sg g E shapes explicit nc acc = Ok (c, r) ->
+  run_shapes trig W oo sg g E shapes explicit nc acc = Ok (c, r) ->
   (exists more, r = acc ++ more) /\ (nc = true -> c = false).
 Proof.
   induction shapes as [|s rest IH]; intros nc acc c r; cbn [run_shapes].
@@ -458,12 +461,12 @@ Qed.
 
 Lemma run_shapes_AR sg g E explicit : forall shapes nc acc1 acc2 c2 r2,
   relo acc1 acc2 -> nc = negb (all_waived eo acc2) ->
-  run_shapes trig o sg g E shapes explicit nc acc2 = Ok (c2, r2) ->
-  exists r1, run_shapes trig with_abort sg g E shapes explicit nc acc1 = Ok (c2, r1) /\ relo r1 r2.
+  run_shapes trig W o sg g E shapes explicit nc acc2 = Ok (c2, r2) ->
+  exists r1, run_shapes trig W with_abort sg g E shapes explicit nc acc1 = Ok (c2, r1) /\ relo r1 r2.
 Proof.
   induction shapes as [|s rest IH]; intros nc acc1 acc2 c2 r2 Hrel Hnc; cbn [run_shapes].
   - intros [= <- <-]. eauto.
-  - intros H. apply bind_ok in H as ([c r] & E2 & H). pose proof (validate_top_verdict trig _ _ _ _ _ _ _ E2) as Hv.
+  - intros H. apply bind_ok in H as ([c r] & E2 & H). pose proof (validate_top_verdict trig W _ _ _ _ _ _ _ E2) as Hv.
     destruct (validate_top_AR _ _ _ _ _ _ _ E2) as (r1c & E1 & Hrc). rewrite E1. cbn [bind fst snd] in *. cbv zeta in H |- *.
     rewrite Hfull in H. cbn [andb] in H. change (abort with_abort) with true. cbn [andb].
     assert (Hrel' : relo (acc1 ++ r1c) (acc2 ++ r)) by (apply rel_app; auto).
@@ -483,8 +486,8 @@ Qed.
    sub-list of its results (possibly with fewer nested details), and a non-conforming verdict
    always comes with at least one result. *)
 Theorem validate_abort sg g E c rs :
-  validate trig o sg g E = Ok (c, rs) ->
-  exists rs', validate trig with_abort sg g E = Ok (c, rs') /\ le_list rs' rs /\ (c = false -> rs' <> []).
+  validate trig W o sg g E = Ok (c, rs) ->
+  exists rs', validate trig W with_abort sg g E = Ok (c, rs') /\ le_list rs' rs /\ (c = false -> rs' <> []).
 Proof.
   intros H. unfold validate in *.
   destruct (run_shapes_AR sg g E None E false [] [] c rs (rel_refl eo []) eq_refl H) as (rs' & H' & (L1 & L2 & L3)).
@@ -495,5 +498,5 @@ Qed.
 End Validate.
 
 (* a non-conforming report always has a result, with or without abort_on_first *)
-Theorem nonconforming_has_result trig o sg g E rs : validate trig o sg g E = Ok (false, rs) -> rs <> [].
+Theorem nonconforming_has_result trig W o sg g E rs : validate trig W o sg g E = Ok (false, rs) -> rs <> [].
 Proof. intros H ->. apply validate_verdict in H. discriminate H. Qed.
